@@ -129,6 +129,11 @@ func genText(r *rand.Rand, noFault bool) *Text {
 			for n := 1 + r.Intn(3); n > 0; n-- {
 				g.healthy(1, true)
 			}
+			if i < pos && !noFault && r.Intn(3) == 0 {
+				// a decoy: the very same faulty text on an EARLIER line, in a branch that is never
+				// taken - a position that is cached per expression text would cite this line
+				g.decoy(t.Fault)
+			}
 			if r.Intn(3) == 0 {
 				g.stmt(1, "return", g.intExpr())
 			}
@@ -159,6 +164,27 @@ func genText(r *rand.Rand, noFault bool) *Text {
 		t.Base = strings.Join(b.lines, "\n") + "\n"
 	}
 	return t
+}
+
+// decoy emits `if <false> { <the faulty text> }` (never executed).
+func (g *gen) decoy(f Fault) {
+	var body string
+	switch f.Kind {
+	case kAssign, kAssignOnly:
+		body = f.Text
+		if f.Kind == kAssignOnly {
+			body = g.newVar("dq") + " = " + f.Text
+		}
+	case kCall:
+		body = f.Text
+	case kExpr, kBool:
+		body = g.newVar("dq") + " = " + f.Text
+	default:
+		return
+	}
+	g.add(1, "if "+g.falseCond()+" {")
+	g.add(2, body)
+	g.add(1, "}")
 }
 
 // healthyStandIn replaces a fault by a healthy construct of the same syntactic kind.
